@@ -862,10 +862,12 @@ fn judge(hseed: u64, set: &Settings, evs: &[Ev], expected: &BTreeMap<u32, Vec<St
                     return Err(hv(hseed, set, "commit-bound", "beyond-fetched", json!({"partition": part, "committed": off, "max_fetched": max_fetched.get(part), "event_index": i}), &evs[..=i]));
                 }
                 // a next-strategy consumer never takes its committed offset backwards (that is re-reading acknowledged work after the next re-creation)
-                if set.strat == Strat::Next && single_identity {
+                // (with two members only the unmistakable pattern is judged: offset 0 written by an interval task after a higher commit -
+                // a member that has just been given the partition has consumed nothing of it yet; other cross-member orders are legitimate)
+                let interval_mode = matches!(set.mode, Mode::Interval | Mode::IntervalOrPolling | Mode::IntervalOrEach);
+                if set.strat == Strat::Next && (single_identity || (interval_mode && *off == 0)) {
                     let mc = max_committed.entry(*part).or_insert(*off);
                     if *off < *mc {
-                        let interval_mode = matches!(set.mode, Mode::Interval | Mode::IntervalOrPolling | Mode::IntervalOrEach);
                         let trig = if *off == 0 && interval_mode {
                             "commit-regressed/interval-task-stores-zero-for-partition-not-yet-consumed"
                         } else if matches!(set.mode, Mode::IntervalOrPolling | Mode::IntervalOrEach) {
@@ -876,6 +878,9 @@ fn judge(hseed: u64, set: &Settings, evs: &[Ev], expected: &BTreeMap<u32, Vec<St
                         return Err(hv(hseed, set, "resume", trig, json!({"partition": part, "committed": off, "previously_committed": *mc, "mode": format!("{:?}", set.mode), "event_index": i}), &evs[..=i]));
                     }
                     *mc = *off;
+                } else if set.strat == Strat::Next {
+                    let mc = max_committed.entry(*part).or_insert(*off);
+                    *mc = (*mc).max(*off);
                 }
                 if set.mode.commits_on_consumption() {
                     // never beyond the last yielded message; the message being handed over right now is logged just after
@@ -903,7 +908,8 @@ fn judge(hseed: u64, set: &Settings, evs: &[Ev], expected: &BTreeMap<u32, Vec<St
                         let trig = if *off == *prev { "duplicate-in-incarnation" } else { "out-of-order" };
                         return Err(hv(hseed, set, "consumer-yields", trig, json!({"partition": part, "offset": off, "previous": prev, "member": conn, "incarnation": inc}), &evs[..=i]));
                     }
-                    if matches!(set.strat, Strat::Next | Strat::Offset0) && *off != *prev + 1 {
+                    // (with two members a partition can go to the other member and come back: only a single consumer must see consecutive offsets)
+                    if single_identity && matches!(set.strat, Strat::Next | Strat::Offset0) && *off != *prev + 1 {
                         return Err(hv(hseed, set, "consumer-yields", "gap-in-incarnation", json!({"partition": part, "offset": off, "previous": prev, "member": conn, "incarnation": inc}), &evs[..=i]));
                     }
                 }
